@@ -528,3 +528,42 @@ Found 6 errors.
     );
   }
 }
+
+/// Verification hooks (only compiled with `--cfg samlang_verif`): expose the token stream.
+#[cfg(samlang_verif)]
+pub mod verif {
+  use samlang_ast::Location;
+  use samlang_errors::ErrorSet;
+  use samlang_heap::{Heap, ModuleReference};
+
+  /// Every token the lexer produces for `text` (comments and error tokens included, EOF excluded):
+  /// (kind, location, text), where kind is one of keyword, operator, upper-id, lower-id, string,
+  /// int, line-comment, block-comment, doc-comment, error.
+  pub fn lex(
+    text: &str,
+    module_reference: ModuleReference,
+    heap: &mut Heap,
+    error_set: &mut ErrorSet,
+  ) -> Vec<(&'static str, Location, String)> {
+    use super::lexer::{Token, TokenContent, TokenProducer};
+    let mut producer = TokenProducer::new(text, module_reference);
+    let mut tokens = Vec::new();
+    while let Some(Token(loc, content)) = producer.next_token(heap, error_set) {
+      let kind = match content {
+        TokenContent::Keyword(_) => "keyword",
+        TokenContent::Operator(_) => "operator",
+        TokenContent::EndOfFile => break,
+        TokenContent::UpperId(_) => "upper-id",
+        TokenContent::LowerId(_) => "lower-id",
+        TokenContent::StringLiteral(_) => "string",
+        TokenContent::IntLiteral(_) => "int",
+        TokenContent::LineComment(_) => "line-comment",
+        TokenContent::BlockComment(_) => "block-comment",
+        TokenContent::DocComment(_) => "doc-comment",
+        TokenContent::Error(_) => "error",
+      };
+      tokens.push((kind, loc, content.pretty_print(heap)));
+    }
+    tokens
+  }
+}
